@@ -21,3 +21,8 @@ kani_unit("verifier_channel", "winter-verifier", "verifier/src/channel.rs", "kan
       "a proof claiming the computation's own modulus is not refused with InconsistentBaseField", timeout=900),
     H("verifier_channel_canary_must_fail", ["C18"], [], "false claim: the field check never fires", canary=True),
 ])
+
+
+verus_unit("policyv", "policyv", ["C18"], [
+    "Proof::security_level (the conjectured resp. proven estimate of (options, claimed modulus bit length, trace length, collision resistance of the hasher) - in that argument order)",
+    "AcceptableOptions::validate (all three arms: a minimum level is met exactly when the proof's level of that kind reaches it, the error carries (minimum, level); an option set accepts exactly the proofs whose options it contains)"])
